@@ -298,9 +298,12 @@ def childEvents (cfg : Cfg) (raws : F → List Raw) (sups : F → List (Bool × 
   let (out, e) := logRun cfg false {} (raws f)
   out.map Ev.err ++ (sups f).map (fun p => Ev.suppr p.1 p.2) ++ [Ev.done e.toNat]
 
-/-- `PipeWriter::writeSuppr`: every inline suppression, and the other ones once they were checked -/
+/-- `PipeWriter::writeSuppr`: every inline suppression, and the other ones once they were checked; suppressions that
+    carry a hash are not transferred (the hash is not part of the line) -/
 def writeSuppr (l : List Suppr) : List (Bool × Suppr) :=
-  l.filterMap (fun s => if s.isInline then some (true, s) else if s.checked then some (false, s) else none)
+  l.filterMap (fun s =>
+    if s.hash > 0 then none
+    else if s.isInline then some (true, s) else if s.checked then some (false, s) else none)
 
 /-- `std::stoi`: `none` = invalid_argument / out_of_range (not caught by handleRead) -/
 def stoi (s : Str) : Option Int :=
